@@ -135,6 +135,7 @@ deriving Repr, DecidableEq
 inductive Err
   | txDecode | insufficientCoins | invalidCoins | unauthorized | insufficientFee | unknownAddress
   | sessionExpired | sessionNotAllowed | sessionNotFound | sessionLimit | insufficientFunds
+  | unknownRequest
   | internal      -- a Go panic outside the VM (runTx's recover ⇒ `InternalError`)
   | vm            -- any error or panic raised inside a VM message (`StringError`)
 deriving Repr, DecidableEq
@@ -146,6 +147,7 @@ def Err.token : Err → String
   | .sessionExpired => "err:SessionExpiredError" | .sessionNotAllowed => "err:SessionNotAllowedError"
   | .sessionNotFound => "err:SessionNotFoundError" | .sessionLimit => "err:SessionLimitError"
   | .insufficientFunds => "err:InsufficientFundsError" | .internal => "err:InternalError"
+  | .unknownRequest => "err:UnknownRequestError"
   | .vm => "err:StringError"
 
 /-- the period-reset test shared by `DeductSessionSpend` and `CheckSessionSpend` -/
@@ -315,8 +317,9 @@ def Msg.spendFor (signer : Nat) : Msg → Coins
   | _ => []
 
 /-- `std.Tx.GetSigners`: first appearance, duplicates dropped -/
-def signersOf (msgs : List Msg) : List Nat :=
-  msgs.foldl (fun acc m => if acc.contains m.signer then acc else acc ++ [m.signer]) []
+def signersOf : List Msg → List Nat
+  | [] => []
+  | m :: r => m.signer :: (signersOf r).filter (· != m.signer)
 
 /-- amino round trip of every `Coins` field of the tx (the coins inside a run script are Gno
     source text and are not decoded). -/
@@ -328,10 +331,17 @@ def Msg.decode : Msg → Option Msg
   | .create s k e p lim ps => (decodeCoins lim).map fun l => .create s k e p l ps
   | m => some m
 
-def Tx.decode (tx : Tx) : Option Tx := do
-  let fee ← decodeFee tx.fee
-  let msgs ← tx.msgs.mapM Msg.decode
-  pure { tx with fee := fee, msgs := msgs }
+def decodeMsgs : List Msg → Option (List Msg)
+  | [] => some []
+  | m :: r =>
+    match m.decode, decodeMsgs r with
+    | some m', some r' => some (m' :: r')
+    | _, _ => none
+
+def Tx.decode (tx : Tx) : Option Tx :=
+  match decodeFee tx.fee, decodeMsgs tx.msgs with
+  | some fee, some msgs => some { auth := tx.auth, fee := fee, msgs := msgs }
+  | _, _ => none
 
 /-- `Msg.ValidateBasic` on decoded messages (only the failing branches that decoding leaves
     open); `none` = valid -/
@@ -574,6 +584,8 @@ def runTx (w : World) (raw : Tx) : World × Except Err Unit :=
   match raw.decode with
   | none => (w, .error .txDecode)
   | some tx =>
+    -- validateBasicTxMsgs: at least one message, then every message's ValidateBasic
+    if tx.msgs.isEmpty then (w, .error .unknownRequest) else
     match tx.msgs.findSome? Msg.validateBasic with
     | some e => (w, .error e)
     | none =>
